@@ -313,6 +313,19 @@ let run_case (line : string) =
          | Ok v -> add ("OK " ^ enc_value v ^ " LOG " ^ log_s lg)
          | Err c -> add ("ERR " ^ cause_s c ^ " LOG " ^ log_s lg)
          | Unmodelled -> add "UNMODELLED"))
+   | ["evalc"; meth; e1; e2; e3; src] ->
+     (* a chain of three scopes: Combine(Combine(inner, middle), outer) *)
+     let mt = parse_methods meth in
+     let methods (ty : n) (ptr : bool) = match Hashtbl.find_opt mt (int_of_n ty, ptr) with Some l -> l | None -> [] in
+     let sc = SCombine (SCombine (SData (parse_value e1), SData (parse_value e2)), SData (parse_value e3)) in
+     (match parse_code is_letter is_udigit (str_of_field src) with
+      | None -> add "ERR parse"
+      | Some _ ->
+        let (r, lg) = eval_text is_letter is_udigit methods call_fn sc (str_of_field src) [] in
+        (match r with
+         | Ok v -> add ("OK " ^ enc_value v ^ " LOG " ^ log_s lg)
+         | Err c -> add ("ERR " ^ cause_s c ^ " LOG " ^ log_s lg)
+         | Unmodelled -> add "UNMODELLED"))
    | ["render"; aprefix; tprefix; tags; voids; files; tname; meth; glob; runs] ->
      let mt = parse_methods meth in
      let methods (ty : n) (ptr : bool) = match Hashtbl.find_opt mt (int_of_n ty, ptr) with Some l -> l | None -> [] in
